@@ -69,6 +69,7 @@ class RDeal:
         if need > available:
             self.fallback = True
             self.fallbacks += 1
+            self.fallback_cards = getattr(self, 'fallback_cards', 0) + len(facings)      # per board
             for b in range(self.boards):
                 self.pend_board[b] += len(facings)
             self.pend_hole = [[] for _ in range(self.n)]
